@@ -405,6 +405,15 @@ class Flow:
                     just = True
             if just:
                 continue
+            if cw["slot"][0] == "fld" and cw["slot"][2] == "b" and len(cw["chain"]) == 1 and not cw["loops"]:
+                # the body of an LWE sample assembled in a way the statement rules above do not know (partial sums in a helper,
+                # conditional tails): decide by interpretation what b finally holds
+                vd, det = self._body_masked_by_interpretation(f, cw["slot"][1], roots, data_syms)
+                if vd == "masked":
+                    self.log.append((f.name, det))
+                    continue
+                if vd == "refuted":
+                    cw = dict(cw, interp=det)       # not masked by this function itself: the caller may still mask the object (below)
             if holds_key:
                 verdict, detail = self.coverage(f, roots, cw, [mo for mo in masked_objs if sym.root_of(mo["obj"]) == cw["root"]])
                 if verdict == "covered":
@@ -412,7 +421,7 @@ class Flow:
                     continue
                 if verdict == "refuted" or not masked_objs or all(sym.root_of(mo["obj"]) != cw["root"] for mo in masked_objs):
                     refuted.append({"fn": f.name, "where": "%s:%s" % (cw["file"], cw["line"]), "slot": sym.show(cw["slot"]),
-                                    "val": sym.show(cw["val"])[:120], "chain": cw["chain"], "detail": detail})
+                                    "val": sym.show(cw["val"])[:120], "chain": cw["chain"], "detail": detail + ("; " + cw["interp"] if cw.get("interp") else "")})
                     continue
                 unknown.append("%s: clear write to %s (line %s) and later masking of overlapping storage: %s" % (
                     f.name, sym.show(cw["slot"]), cw["line"], detail))
@@ -464,6 +473,84 @@ class Flow:
         except Exception:
             return False
         return True
+
+    def _body_masked_by_interpretation(self, f, S0, roots, data_syms):
+        """f is interpreted for small values of the dimensions its loops depend on, with secret storage as indeterminates and every
+        call result as a fresh atom (sa/concrete.PolyState).  Masked: in the polynomial S0.b finally holds, every monomial that
+        contains a secret indeterminate also contains a uniformTorus32 draw (process generator) that is, at the end, a mask
+        coefficient S0.a[j] of the same sample.  -> ("masked" | "refuted" | "unknown", detail)"""
+        from . import concrete, symexec
+        try:
+            effs = symexec.run_function(self.v, f, hooks=NOINLINE)[0]
+        except Exception as e:
+            return "unknown", str(e)
+        dims = [d for d in concrete.dimension_atoms(effs) if not self.tainted(d, roots, data_syms)]
+        if len(dims) > 2:
+            return "unknown", "more than two dimensions"
+        sroot = sym.root_of(S0)
+        key_roots = {sym.sym(p["n"]) for p in f.params if self.is_key_object(sym.sym(p["n"]), roots)}
+
+        def term_of(loc):
+            t, path = loc
+            for st_ in path:
+                t = sym.idx(t, I(st_)) if isinstance(st_, int) else sym.fld(t, st_)
+            return t
+
+        def secret(a):
+            if a in data_syms:
+                return True
+            return isinstance(a, tuple) and a and a[0] == "init" and self.tainted(term_of(a[1]), roots, data_syms)
+        runs = 0
+        for vals in itertools.product(range(0, 6), repeat=len(dims)):
+            env0 = dict(zip(dims, vals))
+            st = concrete.PolyState()
+
+            def h(kind, x, env):
+                if kind in ("local", "store"):
+                    st.assign(x, env)
+                elif kind == "call":
+                    for a_ in x.get("args", []):
+                        if isinstance(a_, tuple) and a_ and a_[0] in ("addr", "idx", "fld", "sym") and sym.root_of(a_) in ({sroot} | key_roots) \
+                                and a_ not in dims and not (a_[0] == "sym" and a_ not in key_roots and a_ != sroot):
+                            raise concrete.NotEvaluable("call of %s on the sample or the key at line %s" % (x["name"], x.get("l")))
+                    st.called(x)
+                elif kind in ("asm", "unknown", "alloc", "delete"):
+                    raise concrete.NotEvaluable("%s at line %s" % (kind, x.get("l")))
+                return None
+            try:
+                concrete.interpret(effs, env0, h, on_segment=st.segment)
+                b_ = st.read(concrete.lvalue_location(sym.fld(S0, "b"), {}))
+            except (concrete.NotEvaluable, AnalysisBroken, KeyError, TypeError) as e:
+                return "unknown", "interpretation: %s" % e
+            if b_ is None:
+                return "unknown", "b is not a polynomial"
+            a_loc = concrete.lvalue_location(sym.idx(sym.fld(S0, "a"), ZERO), {})
+            fresh = set()
+            for (r_, pth), val in st.cells.items():
+                if r_ == a_loc[0] and pth[:-1] == a_loc[1][:-1] and isinstance(val, dict) and len(val) == 1:
+                    (m_, c_), = val.items()
+                    if len(m_) == 1 and c_ == 1 and isinstance(m_[0], tuple) and m_[0][0] == "draw":
+                        ct = m_[0][1]
+                        if "operator()" in str(ct[1]) and ("glob", "uniformTorus32_distrib") in ct[2] and ("glob", "generator") in ct[2]:
+                            fresh.add(m_[0])
+            keyed = lambda a_: isinstance(a_, tuple) and a_ and a_[0] == "init" and secret(a_)
+            # the plaintext (secret data handed in as the message) may sit in b in clear when the sample is masked: every mask
+            # coefficient the function wrote is a fresh draw that enters b multiplied by a key element
+            used = {a_ for m_, c_ in b_.items() if c_ % (1 << 32) and any(keyed(x_) for x_ in m_) for a_ in m_ if a_ in fresh}
+            n_cells = sum(1 for (r_, pth) in st.cells if r_ == a_loc[0] and pth[:-1] == a_loc[1][:-1])
+            sample_masked = used == fresh and n_cells == len(fresh)
+            for m_, c_ in b_.items():
+                if not c_ % (1 << 32) or not any(secret(a_) for a_ in m_) or any(a_ in fresh for a_ in m_):
+                    continue
+                if sample_masked and not any(keyed(a_) for a_ in m_):
+                    continue
+                if True:
+                    return "refuted", "with %s: b finally holds %s, whose term %s depends on the secret without a fresh mask coefficient of the same sample" % (
+                        ", ".join("%s = %d" % (sym.show(d), x) for d, x in env0.items()) or "no dimensions", concrete.show_poly(b_, 4),
+                        "*".join(concrete.show_atom(a_) for a_ in m_))
+            runs += 1
+        return "masked", "%s: interpreted on %d assignments of %s: every secret-dependent term of b carries a fresh mask coefficient of the sample" % (
+            f.name, runs, [sym.show(d) for d in dims])
 
     # ------------------------------------------------------------------ slot-wise coverage on a small grid
     def coverage(self, f, roots, cw, mos):
